@@ -413,6 +413,48 @@ def ref_pfb(x, w, P, taps):
     return out
 
 
+def _large_call(P, taps, W, cache_flag):
+    """real channelize on one call of W windows against a vectorised transcription of the definition"""
+    from setigen.voltage import polyphase_filterbank as pf
+    rng = np.random.default_rng(4)
+    fb = pf.PolyphaseFilterbank(num_taps=taps, num_branches=P)
+    w = np.array(fb.window)
+    x = rng.standard_normal(W * taps * P)
+    out = fb.channelize(x, cache=cache_flag)
+    nspec = (W - 1) * taps
+    xp_ = x.reshape(-1, P)
+    seg = sum(w[t * P:(t + 1) * P][None, :] * xp_[t:t + nspec] for t in range(taps))
+    ref = (np.fft.fft(seg, axis=1) / np.sqrt(P))[:, :P // 2]
+    if out.shape != ref.shape:
+        return f"one call of {W} windows (cache={cache_flag}) returned {out.shape[0]} spectra, the definition gives {ref.shape[0]}"
+    if not np.allclose(out, ref, rtol=1e-9, atol=1e-9):
+        bad = np.nonzero(~np.isclose(out, ref, rtol=1e-9, atol=1e-9).all(axis=1))[0]
+        return f"one call of {W} windows (cache={cache_flag}): spectra {bad[:3].tolist()}.. differ from the definition"
+    return None
+
+
+LARGE_CALL = (4, 2, 2 ** 18 + 5)        # 2**21 + 40 samples in ONE call: beyond any plausible internal segment size
+
+
+def job_large_call(cache_flag):
+    """one call on more than 2**21 samples (executed concretely: far beyond what the symbolic jobs can hold): a
+    segment-, slab- or block-wise implementation must not lose spectra at its seams, with or without the cache"""
+    recs = []
+    P, taps, W = LARGE_CALL
+    msg = _large_call(P, taps, W, cache_flag)
+    name = f"C08:large-call:{(P, taps, W, cache_flag)}"
+    r, _ = core.check([RV(int(msg is None)) != 1])
+    recs.append(q(name, r, trivial=True, samples=W * taps * P, detail=msg or ''))
+    if msg:
+        recs.append(cex('C08:large-call', msg, dict(fn='large_call', cache=cache_flag), name=name))
+    return recs
+
+
+def replay_large_call(p):
+    msg = _large_call(*LARGE_CALL, p['cache'])
+    return bool(msg), msg or 'large one-shot call agrees with the definition'
+
+
 def replay_pfb(p):
     from setigen.voltage import polyphase_filterbank as pf
     P, taps, chunks, sc = p['P'], p['taps'], p['chunks'], p['scenario']
@@ -495,7 +537,7 @@ def replay_window(p):
     return (not np.array_equal(got, want)), f"window max abs diff {np.max(np.abs(got - want)) if got.shape == want.shape else 'shape'}"
 
 
-REPLAYS = {'pfb': replay_pfb, 'window': replay_window, 'window_history': replay_window_history, 'window_count': replay_window_count}
+REPLAYS = {'large_call': replay_large_call, 'pfb': replay_pfb, 'window': replay_window, 'window_history': replay_window_history, 'window_count': replay_window_count}
 
 
 def main():
@@ -528,6 +570,8 @@ def main():
     for (P_, taps_, W_) in ((2, 1, 1032), (2, 3, 400)) + (((4, 2, 777), (2, 8, 201)) if ck.thorough else ()):
         jobs.append(('job_definition', (P_, taps_, W_, False)))
     jobs.append(('job_window_history', ()))
+    for cf_ in (False, True):
+        jobs.append(('job_large_call', (cf_,)))
     for (P0_, t0_, P_, t_) in ((4, 2, 4, 1), (4, 1, 4, 2), (2, 2, 4, 2), (8, 2, 4, 2)):
         jobs.append(('job_reconfigured', (P0_, t0_, P_, t_, 3)))
     for taps in ((1, 2, 3, 4, 7, 8) if not ck.thorough else range(1, 17)):
